@@ -17,6 +17,16 @@ StartupRefused).
           the name of an optional accessible of a base class that the class does not implement; unknown parameter property; value of the wrong type (parameter value, default, module property, datatype property); missing
           mandatory property / needscfg parameter not given; inverted limits} spread over the modules in every way, every
           module in addition with one of its representative valid contexts.
+  pairs   nodes of two modules (all class pairs x the pair contexts of each class, which contain Param(value, limit override)
+          forms) built twice: every Mod(...) call with Param objects of its own, and with ONE Param object for every distinct
+          Param(...) expression of the node handed to all Mod calls using it (as a cfg file does with `common = Param(...)`) -
+          in process and as a cfg file.
+  again   every node of every sub-check (valid, erroneous, from files; quick tier: of the erroneous nodes those with one module
+          or one error) is processed a second time on the same Server object
+          (Server.restart() -> run() -> _processCfg()): the second generation of modules must equal the first one (start
+          values, defaults, constants, datainfo, access mode, wire names, module properties), an erroneous configuration must
+          be refused again with the same failing modules named, and the configuration objects handed to the server (the Mod /
+          Param dicts the file produced) must be unchanged after each processing.
   files   the same module configurations written as config *files* to a scratch directory (tempfile.mkdtemp, removed
           afterwards), one file or two files, looked up by name through generalConfig.confdir or by path, loaded and merged by
           the real frappy.config.load_config; the result must equal the in-process configuration (plus original_id for modules
@@ -35,9 +45,11 @@ Oracle (reference written from the statement; expected values come from the cata
     secnode.modules; the same configuration without the erroneous entries starts (so the refusal is due to them)
 
 Oracle calibration
-  * a configured value / default / constant outside the (overridden) limits is not required to be refused: such a
-    configuration may be refused or started, and nothing is demanded about the cache or the initial write of that parameter
-    (frappy starts and the write wrapper then refuses the value with RangeError: not judged)
+  * a configured value / default / constant outside the (overridden) limits - numeric limits as well as the length limits
+    and the character set of strings, arrays and blobs - is not required to be refused: such a configuration may be refused
+    or started.  When it is started the value must not be silently dropped: the cache holds the converted value; nothing is
+    demanded about the initial write of that parameter (the write wrapper refuses the value with RangeError: not judged).
+    A value inside the CONFIGURED limits is valid also when it is outside the limits of the class (widening override)
   * the form of the error text is free; only the failing module's name must occur in it (as a word)
   * which exception class carries the rejection inside frappy is not observed
   * constant together with value / default on one parameter, and two entries on the same (accessible, key), are not generated
@@ -66,10 +78,10 @@ MODEL = {
         'f': dict(kind='double', lo=0.0, hi=10.0, wire='_f', readonly=False, write=True, default=1.0),
         'i': dict(kind='int', lo=0, hi=9, wire='_i', readonly=False, write=True, default=2),
         'e': dict(kind='enum', members={'a': 1, 'b': 2, 'c': 3}, wire='_e', readonly=False, write=True, default=1),
-        's': dict(kind='string', wire='_s', readonly=False, write=False, default=''),
+        's': dict(kind='string', lenlo=0, lenhi=8, utf8=False, wire='_s', readonly=False, write=False, default=''),
         'sc': dict(kind='scaled', scale=0.1, lo=0.0, hi=10.0, wire='_sc', readonly=False, write=True, default=0.0),
         'b': dict(kind='bool', wire='_b', readonly=False, write=True, default=False),
-        'arr': dict(kind='array-double', wire='_arr', readonly=False, write=True, default=()),
+        'arr': dict(kind='array-double', lenlo=0, lenhi=3, wire='_arr', readonly=False, write=True, default=()),
         'st': dict(kind='struct', wire='_st', readonly=False, write=True, default={'x': 0.0, 'y': 0}),
         'r': dict(kind='double', lo=0.0, hi=100.0, wire='_r', readonly=True, write=False, default=0.0),
         'ro': dict(kind='double', lo=0.0, hi=100.0, wire='_ro', readonly=True, write=True, default=0.0),
@@ -78,6 +90,12 @@ MODEL = {
     'GN': {
         'n': dict(kind='double', lo=0.0, hi=10.0, wire='_n', readonly=False, write=True, default=None),
         'f': dict(kind='double', lo=0.0, hi=10.0, wire='_f', readonly=False, write=True, default=1.0),
+    },
+    'GS': {
+        's': dict(kind='string', lenlo=0, lenhi=8, utf8=False, wire='_s', readonly=False, write=True, default=''),
+        'u': dict(kind='string', lenlo=0, lenhi=6, utf8=False, wire='_u', readonly=False, write=False, default=''),
+        'arr': dict(kind='array-double', lenlo=0, lenhi=4, wire='_arr', readonly=False, write=True, default=()),
+        'bl': dict(kind='blob', lenlo=0, lenhi=4, wire='_bl', readonly=False, write=True, default=b''),
     },
     'GQ': {
         'g': dict(kind='double', lo=0.0, hi=100.0, wire='_g', readonly=False, write=True, default=1.0),
@@ -102,7 +120,10 @@ MODEL = {
     },
 }
 VISIBILITY = {'user': 1, 'advanced': 2, 'expert': 3}
-POLLED = {'GA': True, 'GN': True, 'GD': True, 'GQ': False, 'GH': False, 'GO': True, 'GOI': True}    # enablePoll of the class
+# datatype properties limiting a length, per kind: (lower key, upper key)
+LENKEYS = {'string': ('minchars', 'maxchars'), 'array-double': ('minlen', 'maxlen'), 'blob': ('minbytes', 'maxbytes')}
+ALL_LENKEYS = {k for pair in LENKEYS.values() for k in pair}
+POLLED = {'GS': True, 'GA': True, 'GN': True, 'GD': True, 'GQ': False, 'GH': False, 'GO': True, 'GOI': True}    # enablePoll of the class
 # optional accessibles declared by a base class and NOT implemented by the class: they do not exist on its modules
 UNIMPLEMENTED = {'GO': {'opt', 'ocmd'}, 'GOI': {'ocmd'}}
 AUX_IO = 'mod_io'      # auxiliary io module (class GIO) present in every node with a GH module
@@ -144,12 +165,22 @@ for _c in ('GQ', 'GH'):
     ENTRIES[_c] = [('grp', '', 'group', 'bare', 'grp'), ('g=5', 'g', 'value', 'bare', 5), ('g=P7.5', 'g', 'value', 'param', 7.5),
                    ('gmax', 'g', 'max', '', 50), ('gmin', 'g', 'min', '', 2), ('gvis', 'g', 'visibility', '', 'expert'),
                    ('h=x', 'h', 'value', 'bare', 'x')]
+ENTRIES['GS'] = [
+    ('grp', '', 'group', 'bare', 'grp'),
+    ('s=6', 's', 'value', 'bare', 'abcdef'), ('s=P12', 's', 'value', 'param', 'abcdefghijkl'), ('s=P2', 's', 'value', 'param', 'ab'),
+    ('smax16', 's', 'maxchars', '', 16), ('smax4', 's', 'maxchars', '', 4), ('smin2', 's', 'minchars', '', 2),
+    ('u=abc', 'u', 'value', 'bare', 'abc'), ('u=Puml', 'u', 'value', 'param', 'gr\u00fcn'), ('uutf8', 'u', 'isUTF8', '', True),
+    ('arr=3', 'arr', 'value', 'bare', [1, 2, 3]), ('arr=P6', 'arr', 'value', 'param', [1, 2, 3, 4, 5, 6]),
+    ('amax6', 'arr', 'maxlen', '', 6), ('amax2', 'arr', 'maxlen', '', 2), ('amin1', 'arr', 'minlen', '', 1),
+    ('bl=2', 'bl', 'value', 'bare', b'ab'), ('bl=P6', 'bl', 'value', 'param', b'abcdef'),
+    ('bmax8', 'bl', 'maxbytes', '', 8), ('bmax1', 'bl', 'maxbytes', '', 1),
+]
 ENTRIES['GO'] = [('fmax', 'f', 'max', '', 8), ('f=3', 'f', 'value', 'bare', 3), ('grp', '', 'group', 'bare', 'grp')]
 ENTRIES['GOI'] = [('opt=5', 'opt', 'value', 'bare', 5), ('optmax', 'opt', 'max', '', 10), ('optdef', 'opt', 'default', '', 4),
                   ('f=3', 'f', 'value', 'bare', 3)]
 # entries every valid configuration of the class contains (needscfg parameter, mandatory property, io module)
 REQUIRED = {
-    'GA': [], 'GD': [], 'GQ': [], 'GO': [], 'GOI': [],
+    'GA': [], 'GD': [], 'GQ': [], 'GO': [], 'GOI': [], 'GS': [],
     'GN': [('n=3', 'n', 'value', 'bare', 3), ('mp', '', 'mp', 'bare', 'x')],
     'GH': [('io', '', 'io', 'bare', AUX_IO)],
 }
@@ -158,7 +189,16 @@ CONTEXTS = {
     'GA': [[], ['f=P2.5'], ['fmax', 'grp']],
     'GN': [[], ['fmax']],
     'GD': [[], ['t=20'], ['tmax']],
-    'GQ': [[], ['g=5']], 'GH': [[], ['g=5']], 'GO': [[]], 'GOI': [[], ['opt=5']],
+    'GQ': [[], ['g=5']], 'GH': [[], ['g=5']], 'GO': [[]], 'GOI': [[], ['opt=5']], 'GS': [[], ['s=P12', 'smax16']],
+}
+# contexts of the two-module nodes of the 'pairs' sub-check: Param(value, override) forms, so that equal Param expressions occur
+PAIRCTX = {
+    'GA': [[], ['f=P2.5', 'fmax'], ['f=P2.5', 'fmax', 'i=3']],
+    'GN': [[], ['fmax']],
+    'GD': [[], ['t=P20', 'tmax']],
+    'GS': [[], ['s=P12', 'smax16'], ['arr=P6', 'amax6', 'bl=2']],
+    'GQ': [[], ['g=P7.5', 'gmax']], 'GH': [[], ['g=P7.5', 'gmax']],
+    'GO': [[], ['fmax']], 'GOI': [[], ['opt=5', 'optmax']],
 }
 # error: (id, category, kind, payload)
 #   kind 'add': payload = (target, key, value) extra entry;  kind 'drop': payload = id of a REQUIRED entry that is left out
@@ -199,6 +239,14 @@ ERRORS = {
 }
 ERRORS['GQ'] = [('unk-name', 'unknown-name', 'add', ('nosuch', 'value', 1)), ('type-g', 'wrong-type', 'add', ('g', 'value', 'x'))]
 ERRORS['GH'] = [('unk-name', 'unknown-name', 'add', ('nosuch', 'value', 1))]
+ERRORS['GS'] = [
+    ('unk-name', 'unknown-name', 'add', ('nosuch', 'value', 1)),
+    ('type-s', 'wrong-type', 'add', ('s', 'value', 5)),
+    ('type-bl', 'wrong-type', 'add', ('bl', 'value', 'text')),
+    ('type-dtprop', 'wrong-type', 'add', ('s', 'maxchars', 'long')),
+    ('inv-s', 'inverted-limits', 'add2', (('s', 'minchars', 6), ('s', 'maxchars', 3))),
+    ('inv-arr', 'inverted-limits', 'add', ('arr', 'minlen', 5)),
+]
 ERRORS['GO'] = [
     ('unimpl-opt-value', 'unknown-name', 'add', ('opt', 'value', 5)),
     ('unimpl-opt-prop', 'unknown-name', 'add', ('opt', 'max', 10)),
@@ -206,9 +254,9 @@ ERRORS['GO'] = [
     ('unk-name', 'unknown-name', 'add', ('nosuch', 'value', 1)),
 ]
 ERRORS['GOI'] = [('unimpl-optcmd-prop', 'unknown-name', 'add', ('ocmd', 'visibility', 'expert'))]
-CLASSES = ['GA', 'GN', 'GD', 'GQ', 'GH', 'GO', 'GOI']
-WIDE_CLASSES = ['GA', 'GN', 'GD', 'GQ', 'GO']      # class tuples of the 3-module nodes (thorough)
-FILE_CLASSES = ['GA', 'GN', 'GD', 'GQ', 'GO', 'GOI']   # GH needs the auxiliary io module: direct mode only
+CLASSES = ['GA', 'GN', 'GD', 'GS', 'GQ', 'GH', 'GO', 'GOI']
+WIDE_CLASSES = ['GA', 'GN', 'GD', 'GS', 'GQ', 'GO']      # class tuples of the 3-module nodes (thorough)
+FILE_CLASSES = ['GA', 'GN', 'GD', 'GS', 'GQ', 'GO', 'GOI']   # GH needs the auxiliary io module: direct mode only
 MODNAMES = ['mod_a', 'mod_b', 'mod_c']
 
 
@@ -289,38 +337,71 @@ def group_items(items):
     return kw
 
 
-def build_mod(name, cls, items):
-    """the module section as the real DSL builds it: Mod(name, cls, description, **kwds) -> (name, dict)"""
+def param_expr(props):
+    """the text of a Param(...) call for an ordered property dict (value first, as one writes it)"""
+    props = dict(props)
+    pargs = []
+    if 'value' in props:
+        pargs.append(repr(props.pop('value')))
+    pargs += [f'{pk}={pv!r}' for pk, pv in props.items()]
+    return f'Param({", ".join(pargs)})'
+
+
+def build_mod(name, cls, items, pcache=None):
+    """the module section as the real DSL builds it: Mod(name, cls, description, **kwds) -> dict.
+    pcache: dict shared by the Mod calls of one node: one Param object per distinct Param(...) expression"""
     from frappy.config import Mod, Param
     kwds = {}
     for k, (form, v) in group_items(items).items():
         if form == 'bare':
             kwds[k] = v
+            continue
+        expr = param_expr(v)
+        if pcache is not None and expr in pcache:
+            kwds[k] = pcache[expr]
+            continue
+        props = dict(v)
+        if 'value' in props:
+            pobj = Param(props.pop('value'), **props)
         else:
-            props = dict(v)
-            if 'value' in props:
-                kwds[k] = Param(props.pop('value'), **props)
-            else:
-                kwds[k] = Param(**props)
+            pobj = Param(**props)
+        if pcache is not None:
+            pcache[expr] = pobj
+        kwds[k] = pobj
     mod = Mod(name, f'{GMOD}.{cls}', f'generated {cls}', **kwds)
     mod = dict(mod)
     mod.pop('name')
     return mod
 
 
-def mod_text(name, cls, items):
+def build_cfg(names, spec, items, shared=False):
+    pcache = {} if shared else None
+    cfg = {name: build_mod(name, cls, it, pcache) for name, (cls, _e, _r), it in zip(names, spec, items)}
+    if any(cls == 'GH' for cls, _e, _r in spec):
+        cfg[AUX_IO] = build_mod(AUX_IO, 'GIO', [])
+    return cfg
+
+
+def mod_text(name, cls, items, variables=None):
+    """variables: {Param expression: variable name} - the file defines the Param objects once and uses them by name"""
     args = [repr(name), repr(f'{GMOD}.{cls}'), repr(f'generated {cls}')]
     for k, (form, v) in group_items(items).items():
         if form == 'bare':
             args.append(f'{k}={v!r}')
         else:
-            props = dict(v)
-            pargs = []
-            if 'value' in props:
-                pargs.append(repr(props.pop('value')))
-            pargs += [f'{pk}={pv!r}' for pk, pv in props.items()]
-            args.append(f'{k}=Param({", ".join(pargs)})')
+            expr = param_expr(v)
+            args.append(f'{k}={variables[expr] if variables is not None else expr}')
     return 'Mod(' + ', '.join(args) + ')\n'
+
+
+def shared_variables(allitems):
+    """-> ({Param expression: variable name}, text defining the variables) for all modules of one file"""
+    variables = {}
+    for items in allitems:
+        for _k, (form, v) in group_items(items).items():
+            if form != 'bare':
+                variables.setdefault(param_expr(v), f'par{len(variables)}')
+    return variables, ''.join(f'{var} = {expr}\n' for expr, var in variables.items())
 
 
 # ---------------------------------------------------------------------------------------------------------------
@@ -345,6 +426,8 @@ def conv(model, v):
         return v
     if k == 'array-double':
         return tuple(float(x) for x in v)
+    if k == 'blob':
+        return bytes(v)
     if k == 'struct':
         return {'x': float(v['x']), 'y': int(v['y'])}
     raise ValueError(k)
@@ -366,6 +449,8 @@ def same(model, got, want):
         return type(got) is str and got == want
     if k == 'array-double':
         return isinstance(got, tuple) and len(got) == len(want) and all(type(a) is float and a == b for a, b in zip(got, want))
+    if k == 'blob':
+        return type(got) is bytes and got == want
     if k == 'struct':
         return (isinstance(got, dict) and set(got) == set(want) and type(got['x']) is float and got['x'] == want['x']
                 and type(got['y']) is int and got['y'] == want['y'])
@@ -381,6 +466,9 @@ def wire(model, v):
         return v[0]
     if k == 'array-double':
         return list(v)
+    if k == 'blob':
+        import base64
+        return base64.b64encode(v).decode('ascii')
     return v
 
 
@@ -403,40 +491,78 @@ class Ref:
         cfg = self.per.get(p, {})
         return cfg.get('min', m.get('lo')), cfg.get('max', m.get('hi'))
 
+    def length_limits(self, p):
+        m = self.model[p]
+        cfg = self.per.get(p, {})
+        lokey, hikey = LENKEYS[m['kind']]
+        return cfg.get(lokey, m['lenlo']), cfg.get(hikey, m['lenhi'])
+
+    def utf8(self, p):
+        return self.per.get(p, {}).get('isUTF8', self.model[p].get('utf8', False))
+
+    def limited(self, p):
+        m = self.model.get(p, {})
+        return 'lo' in m or 'lenlo' in m
+
+    def value_ok(self, p, v):
+        """is v inside the effective (class, overridden by this configuration) limits of p"""
+        m = self.model[p]
+        if 'lo' in m:
+            lo, hi = self.limits(p)
+            return lo <= v <= hi
+        if 'lenlo' in m:
+            lo, hi = self.length_limits(p)
+            if not lo <= len(v) <= hi:
+                return False
+            if m['kind'] == 'string' and not self.utf8(p) and not v.isascii():
+                return False
+        return True
+
     def may_refuse(self):
         """a start value / default / constant outside the effective limits: refusing is allowed, not demanded"""
         for p, cfg in self.per.items():
             m = self.model.get(p)
-            if not m or 'lo' not in m:
+            if not m or not self.limited(p):
                 continue
-            lo, hi = self.limits(p)
             for key in ('value', 'default', 'constant'):
-                if key in cfg and not lo <= cfg[key] <= hi:
+                if key in cfg and not self.value_ok(p, cfg[key]):
                     return True
             # the class default can fall outside narrowed limits as well
-            if m.get('default') is not None and 'value' not in cfg and 'default' not in cfg and not lo <= m['default'] <= hi:
+            if m.get('default') is not None and 'value' not in cfg and 'default' not in cfg and not self.value_ok(p, m['default']):
                 return True
         return False
 
     def outside(self, p, key):
-        m = self.model[p]
         cfg = self.per.get(p, {})
-        if 'lo' not in m or key not in cfg:
+        if not self.limited(p) or key not in cfg:
             return False
-        lo, hi = self.limits(p)
-        return not lo <= cfg[key] <= hi
+        return not self.value_ok(p, cfg[key])
 
     def start_value(self, p):
-        """-> (expected, source) or None when the statement says nothing (calibration: also for a value outside the limits)"""
+        """-> (expected, source) or None when the statement says nothing"""
         cfg = self.per.get(p, {})
         m = self.model[p]
-        if self.outside(p, 'value') or ('value' not in cfg and self.outside(p, 'default')):
-            return None
         if 'value' in cfg:
-            return conv(m, cfg['value']), 'value'
+            return conv(m, cfg['value']), 'value-outside-limits' if self.outside(p, 'value') else 'value'
         if 'default' in cfg:
-            return conv(m, cfg['default']), 'default'
+            return conv(m, cfg['default']), 'default-outside-limits' if self.outside(p, 'default') else 'default'
         return None
+
+    def probes(self, p):
+        """-> (accepted, refused) internal values at / beyond the effective limits of p"""
+        m = self.model[p]
+        if 'lo' in m:
+            lo, hi = self.limits(p)
+            step = m.get('scale', 1)
+            accept = [lo, hi, (lo + hi) // 2 if m['kind'] == 'int' else round(((lo + hi) / 2) / step) * step]
+            return accept, [lo - max(1, step * 10), hi + max(1, step * 10)]
+        lo, hi = self.length_limits(p)
+        unit = {'string': 'x', 'array-double': (1.0,), 'blob': b'x'}[m['kind']]
+        accept = [unit * lo, unit * hi]
+        refuse = [unit * (hi + 1)] + ([unit * (lo - 1)] if lo > 0 else [])
+        if m['kind'] == 'string' and lo <= 2 <= hi:
+            (accept if self.utf8(p) else refuse).append('\u00e4\u00f6')
+        return accept, refuse
 
 
 # ---------------------------------------------------------------------------------------------------------------
@@ -619,8 +745,8 @@ def check_valid(part, node, name, cls, items, case, tag):
             if key in ('min', 'max'):
                 want = round(val / m['scale']) if m['kind'] == 'scaled' else val
                 ok = datainfo.get(key) == want
-            elif key == 'unit':
-                ok = datainfo.get('unit') == val
+            elif key == 'unit' or key in ALL_LENKEYS or key == 'isUTF8':
+                ok = datainfo.get(key) == val
             elif key == 'visibility':
                 got = acc.get('visibility') if acc else pobj.visibility
                 ok = got in (val, VISIBILITY[val]) or (acc is None and int(got) == VISIBILITY[val])
@@ -699,24 +825,21 @@ def check_valid(part, node, name, cls, items, case, tag):
             halfexport.add(p)
         else:
             part.outcomes['export:addressable-as-described'] += 1
-    # 4. range checks use the overridden limits
+    # 4. range checks use the overridden limits (numeric limits, lengths, character set)
     conn = node.connect()
+    limitkeys = {'min', 'max', 'isUTF8'} | ALL_LENKEYS
     for p, cfg in ref.per.items():
         m = model[p]
-        if not ({'min', 'max'} & set(cfg)) or 'lo' not in m:
+        if not (limitkeys & set(cfg)) or not ref.limited(p):
             continue
-        lo, hi = ref.limits(p)
-        step = m.get('scale', 1)
-        accept = [lo, hi, (lo + hi) // 2 if m['kind'] == 'int' else round(((lo + hi) / 2) / step) * step]
-        refuse = [lo - max(1, step * 10), hi + max(1, step * 10)]
+        accept, refuse = ref.probes(p)
         pobj = mod.parameters[p]
         remote = bool(pobj.export) and not pobj.readonly and pobj.constant is None and p not in halfexport
         for x, expect in [(v, 'accept') for v in accept] + [(v, 'refuse') for v in refuse]:
             part.traces += 1
             part.transitions += 1
             if remote:
-                wv = round(x / m['scale']) if m['kind'] == 'scaled' else x
-                rep = node.request(conn, f'change {name}:{pobj.export} {json.dumps(wv)}')
+                rep = node.request(conn, f'change {name}:{pobj.export} {json.dumps(wire(m, x))}')
                 got = 'accept' if rep[0] == 'changed' else ('refuse' if rep[0].startswith('error') and rep[2][0] == 'RangeError'
                                                            else f'other:{rep[0]}:{rep[2][0] if rep[0].startswith("error") else ""}')
             else:
@@ -732,7 +855,7 @@ def check_valid(part, node, name, cls, items, case, tag):
                 part.outcomes[f'range-check-{"remote" if remote else "datatype"}:{expect}'] += 1
             else:
                 part.violation(f'C10:range-check:{m["kind"]}:{"change" if remote else "validate"}-{expect}-expected-got-{norm(got)}', case,
-                               f'{where}: limits of {p} are [{lo}, {hi}] after the overrides; {"change" if remote else "validate"} '
+                               f'{where}: limits of {p} after the overrides {cfg}: {"change" if remote else "validate"} '
                                f'{x!r} -> {got}, expected {expect}')
 
 
@@ -775,73 +898,171 @@ def _report_error_symptom(part, spec, failing_specs, symptom, case, detail, attr
         part.violation(f'C10:{symptom}', case, detail)
 
 
-def run_spec(part, spec, tag='direct', cfg=None, node_cfg=None, attribute=True):
+def cfg_snapshot(cfg):
+    """the configuration objects as handed to the server, as text (order of keys included)"""
+    return json.dumps(cfg, sort_keys=False, default=repr)
+
+
+def observe_generation(node, names):
+    """what one processing of the configuration produced, per module: start values, defaults, constants, datainfo, access mode,
+    wire names, visibility, module properties"""
+    out = {}
+    for name in names:
+        mod = node.secnode.modules.get(name)
+        if mod is None:
+            out[name] = None
+            continue
+        rows = []
+        for aname, aobj in mod.accessibles.items():
+            row = [aname, repr(aobj.export), repr(aobj.visibility)]
+            try:
+                row.append(aobj.datatype.export_datatype())
+            except Exception as e:
+                row.append(f'exc:{type(e).__name__}')
+            if aname in mod.parameters:
+                row += [repr(aobj.value), repr(aobj.default), repr(aobj.constant), aobj.readonly, repr(aobj.readerror)]
+            rows.append(row)
+        out[name] = {'accessibles': rows, 'properties': json.loads(json.dumps(mod.exportProperties(), default=repr)),
+                     'writeDict': sorted(mod.writeDict)}
+    return out
+
+
+def process_again(node):
+    """the configuration is processed a second time on the same server object (Server.restart -> run -> _processCfg)
+    -> None | the errors of the refusal"""
+    import io
+    import sys
+    stderr = sys.stderr
+    sys.stderr = buf = io.StringIO()
+    try:
+        node._processCfg()
+    except SystemExit:
+        return list(node.secnode.errors) + [buf.getvalue()]
+    finally:
+        sys.stderr = stderr
+    return None
+
+
+def run_spec(part, spec, tag='direct', cfg=None, node_cfg=None, attribute=True, shared=False):
     """spec = [[cls, [entry ids], [error ids]], ...] -> build through the DSL (or take cfg loaded from files), start, judge"""
     case = {'spec': spec, 'mode': tag}
+    if shared:
+        case['shared'] = True
     items = [module_items(cls, ents, errs) for cls, ents, errs in spec]
     names = MODNAMES[:len(spec)]
     if cfg is None:
-        cfg = {name: build_mod(name, cls, it) for name, (cls, _e, _r), it in zip(names, spec, items)}
-        if any(cls == 'GH' for cls, _e, _r in spec):
-            cfg[AUX_IO] = build_mod(AUX_IO, 'GIO', [])
+        cfg = build_cfg(names, spec, items, shared)
+    snap = cfg_snapshot(cfg)
     failing = [name for name, (_c, _e, errs) in zip(names, spec) if errs]
     part.evaluations += 1
     node, refused = start_node(cfg, node_cfg)
     part.transitions += 1
     try:
-        if not failing:
-            part.states += 1
-            if refused is not None:
-                refs = [Ref(cls, it) for (cls, _e, _r), it in zip(spec, items)]
-                if any(r.may_refuse() for r in refs):
-                    part.outcomes['valid:refused-allowed(start value outside limits)'] += 1
-                    return 'refused-allowed'
-                what = ('files:' + '+'.join(s[0] for s in spec) if tag == 'files'
-                        else '|'.join(kinds(c, it) for (c, _e, _r), it in zip(spec, items)))
-                part.violation(f'C10:valid-config-refused:{what}', case,
-                               f'{tag}: the configuration {[describe_items(it) for it in items]} of {[s[0] for s in spec]} contains '
-                               f'no error of the catalogue but start-up is refused: {refused.errors}')
-                return 'refused'
-            part.outcomes['valid:started'] += 1
-            gens = [check_valid(part, node, name, cls, it, case, tag) for name, (cls, _e, _r), it in zip(names, spec, items)]
-            for g in gens:
-                next(g)                      # demands on the freshly started node
-            nthreads, ends = real_startup(node)
-            part.transitions += nthreads
-            part.outcomes[f'poll-threads:{nthreads}'] += 1
-            for g in gens:
-                for _ in g:                  # demands on the start-up and on later requests
-                    pass
-            return 'started'
-        # --- erroneous configuration
-        part.states += 1
-        part.nontrivial += 1
-        cats = '+'.join(sorted(error_by_id(cls, e)[1] for cls, _e, errs in spec for e in errs))
-        desc = f'{tag}: ' + '; '.join(f'{n}({c}) entries {describe_items(it)} errors {errs}'
-                                      for n, (c, _e, errs), it in zip(names, spec, items))
-        part.traces += 1
-        if refused is None:
-            part.outcomes['error:started'] += 1
-            report_error_symptom(part, spec, [sp for sp in spec if sp[2]], f'error-config-started:{cats}', case,
-                                 f'{desc}: the node started (modules {list(node.secnode.modules)})', attribute)
-            return 'started'
-        part.outcomes[f'error:refused:{len(failing)}-failing-of-{len(spec)}'] += 1
-        text = '\n'.join(refused.errors) + '\n' + refused.stderr
-        named = words(text)
-        for i, name in enumerate(failing):
-            part.traces += 1
-            if name not in named:
-                report_error_symptom(part, spec, [spec[names.index(name)]],
-                                     f'failing-module-not-reported:{"first" if i == 0 else "later"}-failing-module', case,
-                                     f'{desc}: {name} is not named in the collected errors {refused.errors!r}',
-                                     attribute and len(spec) + sum(len(sp[2]) for sp in spec) > 2)
-            if name in node.secnode.modules:
-                report_error_symptom(part, spec, [spec[names.index(name)]], 'failing-module-registered', case,
-                                     f'{desc}: {name} is registered in secnode.modules although its configuration is erroneous',
-                                     attribute and len(spec) + sum(len(sp[2]) for sp in spec) > 2)
-        return 'refused'
+        return _judge(part, spec, tag, cfg, attribute, case, items, names, failing, node, refused, snap)
     finally:
         close_node(node)
+
+
+def check_again(part, node, names, case, desc, snap, cfg, first):
+    """the demands on a repeated processing; first = observation of the first generation | ('refused', named failing modules)"""
+    part.traces += 1
+    if cfg_snapshot(cfg) != snap:
+        part.violation('C10:configuration-objects-changed-by-processing', case,
+                       f'{desc}: the configuration handed to the server was {snap[:400]} and is {cfg_snapshot(cfg)[:400]} after processing')
+        return
+    errors = process_again(node)
+    part.transitions += 1
+    if first[0] == 'refused':
+        if errors is None:
+            part.violation('C10:processed-again:erroneous-configuration-starts-the-second-time', case,
+                           f'{desc}: refused when processed first, started when the same server processed it again')
+        else:
+            named = words('\n'.join(errors))
+            again = sorted(n for n in names if n in named)
+            if again != first[1]:
+                part.violation('C10:processed-again:other-failing-modules-reported', case,
+                               f'{desc}: failing modules named first {first[1]}, the second time {again}')
+            else:
+                part.outcomes['processed-again:refused-again'] += 1
+    elif errors is not None:
+        part.violation('C10:processed-again:valid-configuration-refused-the-second-time', case,
+                       f'{desc}: started when processed first, the second processing is refused: {errors}')
+    else:
+        second = observe_generation(node, names)
+        if second == first[1]:
+            part.outcomes['processed-again:same-modules'] += 1
+        else:
+            diff = [n for n in names if second.get(n) != first[1].get(n)]
+            n = diff[0]
+            rows1 = {r[0]: r for r in (first[1][n] or {}).get('accessibles', [])}
+            rows2 = {r[0]: r for r in (second[n] or {}).get('accessibles', [])}
+            what = [f'{a}: first {rows1.get(a)} second {rows2.get(a)}' for a in rows1 if rows1.get(a) != rows2.get(a)]
+            part.violation('C10:processed-again:modules-differ-from-the-first-processing', case,
+                           f'{desc}: module {n} differs after the second processing: {what[:3] or (first[1][n], second[n])}')
+    if cfg_snapshot(cfg) != snap:
+        part.violation('C10:configuration-objects-changed-by-processing', case,
+                       f'{desc}: the configuration handed to the server was {snap[:400]} and is {cfg_snapshot(cfg)[:400]} after the '
+                       f'second processing')
+
+
+def _judge(part, spec, tag, cfg, attribute, case, items, names, failing, node, refused, snap):
+    if not failing:
+        part.states += 1
+        if refused is not None:
+            refs = [Ref(cls, it) for (cls, _e, _r), it in zip(spec, items)]
+            if any(r.may_refuse() for r in refs):
+                part.outcomes['valid:refused-allowed(start value outside limits)'] += 1
+                return 'refused-allowed'
+            what = ('files:' + '+'.join(s[0] for s in spec) if tag == 'files'
+                    else '|'.join(kinds(c, it) for (c, _e, _r), it in zip(spec, items)))
+            part.violation(f'C10:valid-config-refused:{what}', case,
+                           f'{tag}: the configuration {[describe_items(it) for it in items]} of {[s[0] for s in spec]} contains '
+                           f'no error of the catalogue but start-up is refused: {refused.errors}')
+            return 'refused'
+        part.outcomes['valid:started'] += 1
+        first = ('started', observe_generation(node, names))
+        gens = [check_valid(part, node, name, cls, it, case, tag) for name, (cls, _e, _r), it in zip(names, spec, items)]
+        for g in gens:
+            next(g)                      # demands on the freshly started node
+        nthreads, ends = real_startup(node)
+        part.transitions += nthreads
+        part.outcomes[f'poll-threads:{nthreads}'] += 1
+        for g in gens:
+            for _ in g:                  # demands on the start-up and on later requests
+                pass
+        check_again(part, node, names, case, f'{tag}: {[describe_items(it) for it in items]} of {[sp[0] for sp in spec]}',
+                    snap, cfg, first)
+        return 'started'
+    # --- erroneous configuration
+    part.states += 1
+    part.nontrivial += 1
+    cats = '+'.join(sorted(error_by_id(cls, e)[1] for cls, _e, errs in spec for e in errs))
+    desc = f'{tag}: ' + '; '.join(f'{n}({c}) entries {describe_items(it)} errors {errs}'
+                                  for n, (c, _e, errs), it in zip(names, spec, items))
+    part.traces += 1
+    if refused is None:
+        part.outcomes['error:started'] += 1
+        report_error_symptom(part, spec, [sp for sp in spec if sp[2]], f'error-config-started:{cats}', case,
+                             f'{desc}: the node started (modules {list(node.secnode.modules)})', attribute)
+        return 'started'
+    part.outcomes[f'error:refused:{len(failing)}-failing-of-{len(spec)}'] += 1
+    text = '\n'.join(refused.errors) + '\n' + refused.stderr
+    named = words(text)
+    for i, name in enumerate(failing):
+        part.traces += 1
+        if name not in named:
+            report_error_symptom(part, spec, [spec[names.index(name)]],
+                                 f'failing-module-not-reported:{"first" if i == 0 else "later"}-failing-module', case,
+                                 f'{desc}: {name} is not named in the collected errors {refused.errors!r}',
+                                 attribute and len(spec) + sum(len(sp[2]) for sp in spec) > 2)
+        if name in node.secnode.modules:
+            report_error_symptom(part, spec, [spec[names.index(name)]], 'failing-module-registered', case,
+                                 f'{desc}: {name} is registered in secnode.modules although its configuration is erroneous',
+                                 attribute and len(spec) + sum(len(sp[2]) for sp in spec) > 2)
+    # quick tier: the second processing of erroneous nodes is limited to single-module nodes and nodes with one error
+    if attribute and (core.TIER != 'quick' or len(spec) == 1 or sum(len(sp[2]) for sp in spec) == 1):
+        check_again(part, node, names, case, desc, snap, cfg, ('refused', sorted(n for n in names if n in named)))
+    return 'refused'
 
 
 def error_class(cls, eid):
@@ -971,11 +1192,12 @@ def file_specs(tier):
                 for e2 in error_sets(c2, 1):
                     yield [[c1, [], e1], [c2, [], e2]]
     for c1 in FILE_CLASSES:
-        for ents in valid_sets(c1, 1):
+        for ents in valid_sets(c1, 2 if c1 == 'GS' or tier != 'quick' else 1):
             yield [[c1, ents, []]]
 
 
 LAYOUTS = ['one-file-by-name', 'two-files-by-name', 'two-files-by-path']
+SHARED_LAYOUT = 'one-file-shared-param-objects'      # `par0 = Param(...)` once, used by every Mod(...) with that expression
 
 
 class LogStub:
@@ -997,11 +1219,12 @@ def run_files(part, spec, layout, scratch):
     from frappy.lib import generalConfig
     names = MODNAMES[:len(spec)]
     items = [module_items(cls, ents, errs) for cls, ents, errs in spec]
-    texts = [mod_text(n, c, it) for n, (c, _e, _r), it in zip(names, spec, items)]
+    variables, vartext = (shared_variables(items) if layout == SHARED_LAYOUT else (None, ''))
+    texts = [mod_text(n, c, it, variables) for n, (c, _e, _r), it in zip(names, spec, items)]
     d = tempfile.mkdtemp(dir=scratch)
-    first = "Node('first_id', 'first node', 'tcp://0', _prop='p1')\n"
+    first = "Node('first_id', 'first node', 'tcp://0', _prop='p1')\n" + vartext
     second = "Node('second_id', 'second node', 'tcp://0')\n"
-    if layout == 'one-file-by-name' or len(spec) == 1:
+    if layout in ('one-file-by-name', SHARED_LAYOUT) or len(spec) == 1:
         files = {'one_cfg.py': first + ''.join(texts)}
         args = ['one']
         second_mods = []
@@ -1068,6 +1291,34 @@ def shard_files(shard):
     return part
 
 
+def pair_cases():
+    for c1, c2 in itertools.product(CLASSES, repeat=2):
+        for x1 in PAIRCTX[c1]:
+            for x2 in PAIRCTX[c2]:
+                spec = [[c1, x1, []], [c2, x2, []]]
+                yield spec, 'separate'
+                yield spec, 'shared'
+                if c1 in FILE_CLASSES and c2 in FILE_CLASSES:
+                    yield spec, SHARED_LAYOUT
+
+
+def shard_pairs(shard):
+    part = core.Part()
+    scratch = tempfile.mkdtemp(prefix='c10-')
+    try:
+        for spec, mode in shard:
+            part.nontrivial += 1
+            if mode == SHARED_LAYOUT:
+                run_files(part, spec, mode, scratch)
+            else:
+                run_spec(part, spec, shared=(mode == 'shared'))
+            if part.evaluations % 101 == 1:
+                part.sample({'spec': spec, 'param objects': mode})
+    finally:
+        shutil.rmtree(scratch, ignore_errors=True)
+    return part
+
+
 def chunks(seq, n):
     seq = list(seq)
     return [seq[i:i + n] for i in range(0, len(seq), n)]
@@ -1091,6 +1342,10 @@ def run(ctx):
             specs += list(error_specs(nmod, b['nerr'], contexts=(nmod <= 2)))
         counts['error_specs'] = len(specs)
         ctx.pmap(shard_errors, chunks(specs, 150), name='errors')
+    if not only or 'pairs' in only:
+        pc = list(pair_cases())
+        counts['pair_cases'] = len(pc)
+        ctx.pmap(shard_pairs, chunks(pc, 40), name='pairs')
     if not only or 'files' in only:
         fs = [(spec, layout) for spec in file_specs(ctx.tier) for layout in (LAYOUTS if len(spec) > 1 else LAYOUTS[:1])]
         counts['file_cases'] = len(fs)
@@ -1098,7 +1353,9 @@ def run(ctx):
     ctx.rule = ('enumeration: valid = per class every compatible set of <= %d entries of its catalogue (%s entries), node with that '
                 'module; errors = every node of 1..%d modules over all class tuples with 1..%d catalogue errors (%s per class) '
                 'distributed over the modules in every way x every representative valid context per module (3-module nodes: no '
-                'context); files = module pairs x contexts / single errors (thorough: error pairs) and all single-entry modules x '
+                'context); pairs = all class pairs x pair contexts x {own Param objects, one Param object per distinct expression, '
+                'the latter as cfg file}; every node of every sub-check is processed a second time on the same server object '
+                '(differential against the first processing, configuration objects unchanged); files = module pairs x contexts / single errors (thorough: error pairs) and all single-entry modules x '
                 'layouts {one file, two files by name, two files by path} through load_config. states = configurations; '
                 'distinct_nontrivial = configurations with >= 1 entry resp. >= 1 error; transitions = node start-ups, describe, '
                 'start-up calls, change requests, file operations; traces = single demands of the statement evaluated'
@@ -1106,8 +1363,8 @@ def run(ctx):
     ctx.coverage.update(bound_completed=f'valid: <= {b["k"]} entries per module; errors: <= {b["nerr"]} errors over <= {b["nmod"]} modules',
                         **counts)
     ctx.assume('classes, entries and errors outside the catalogues (vf.genmods.G_RECORDS, ENTRIES, ERRORS) are not covered',
-               'the poll thread start-up is executed sequentially in the calling thread (writeInitParams, initialReads, first reads, '
-               'doPoll), not by the real thread',
+               'the real poll thread body is executed in the calling thread up to its first wait (virtual clock), not by a thread',
+               'the second processing is _processCfg() on the same server object, without the interface / shutdown part of restart',
                'a configured start value outside the limits may be refused or accepted')
 
 
@@ -1121,5 +1378,5 @@ def replay(case):
         finally:
             shutil.rmtree(scratch, ignore_errors=True)
     else:
-        run_spec(part, spec)
+        run_spec(part, spec, shared=bool(case.get('shared')))
     return part
